@@ -213,9 +213,9 @@ theorem scan_sim (c : Cfg) (tbl : Table) (hadv : c.adv = true) (hT : FunTbl tbl)
                 | nil => simp [callOf] at hcall
                 | cons lp r =>
                   simp only [callOf] at hcall
-                  by_cases hlp : (lp.text == "(") = true
+                  by_cases hlp : (dtext lp == "(") = true
                   · rw [if_pos hlp] at hcall
-                    have hlp' : lp.text = "(" := by simpa using hlp
+                    have hlp' : dtext lp = "(" := by simpa using hlp
                     let body := fixpw (substRef ps (args.map (ex (none :: D))) m.replacement) a.pw
                     have hE : scanRef tbl ex (n + 1) D (a :: lp :: r)
                         = ex (some m.name :: D) body ++ scanRef tbl ex n D rest := by
